@@ -214,6 +214,7 @@ impl<C: NtpClock> Server<C> {
         stats_handler: &mut impl ServerStatHandler,
     ) -> Result<HandleInnerData<'a>, ServerAction<'static>> {
         let (mut action, mut reason) = self.intended_action(client_ip);
+        let mut undecryptable_nts = false;
         if action == ServerResponse::Ignore {
             // Early exit for ignore
             stats_handler.register(fallback_message_version(message), false, reason, action);
@@ -229,6 +230,8 @@ impl<C: NtpClock> Server<C> {
                     action = ServerResponse::NTSNak;
                     reason = ServerReason::InvalidCrypto;
                 }
+                // It still is an NTS packet as far as the statistics are concerned
+                undecryptable_nts = true;
                 (packet, None)
             }
             Err(_) => {
@@ -267,7 +270,7 @@ impl<C: NtpClock> Server<C> {
             return Err(ServerAction::Ignore);
         }
 
-        let nts = cookie.is_some() || action == ServerResponse::NTSNak;
+        let nts = cookie.is_some() || undecryptable_nts;
 
         // ignore non-NTS packets when configured to require NTS
         if let (false, Some(non_nts_action)) = (nts, self.config.require_nts) {
